@@ -100,8 +100,8 @@ func coqURL(u *url.URL) string {
 	if u == nil {
 		return vh.None
 	}
-	return vh.Some(fmt.Sprintf("{| u_scheme := %s; u_rawquery := %s; u_requri := %s; u_string := %s |}",
-		vh.HxS(u.Scheme), vh.HxS(u.RawQuery), vh.HxS(u.RequestURI()), vh.HxS(u.String())))
+	return vh.Some(fmt.Sprintf("{| u_scheme := %s; u_host := %s; u_rawquery := %s; u_requri := %s; u_string := %s |}",
+		vh.HxS(u.Scheme), vh.HxS(u.Host), vh.HxS(u.RawQuery), vh.HxS(u.RequestURI()), vh.HxS(u.String())))
 }
 
 func coqEvent(e *logger.Event) string {
@@ -372,6 +372,10 @@ func refField(name string, e *logger.Event) (string, bool) {
 		}
 		return e.RequestURL.RawQuery, true
 	case "$request_host":
+		// the host the client asked for: the request URL saved before any rewrite when there is one
+		if e.RequestURL != nil {
+			return e.RequestURL.Host, true
+		}
 		return needReq(func() string { return r.Host })
 	case "$request_method":
 		return needReq(func() string { return r.Method })
@@ -1216,6 +1220,8 @@ func coqParts(u *url.URL) string {
 	return fmt.Sprintf("{| up_scheme := %s; up_host := %s; up_path := %s; up_query := %s |}", vh.HxS(u.Scheme), vh.HxS(u.Host), vh.HxS(u.Path), vh.HxS(u.RawQuery))
 }
 
+const requestFormat = "$request|$request_args|$request_host|$request_method|$request_scheme|$request_uri|$request_url|$request_proto"
+
 type nopLogger struct{ ev *logger.Event }
 
 func (l *nopLogger) Log(e *logger.Event) { l.ev = e }
@@ -1274,6 +1280,7 @@ func serveEvents(run *vh.Run, r *rand.Rand) {
 			req.TLS = &tls.ConnectionState{}
 		}
 		recvHost, recvPath, recvQuery, recvProto := req.Host, req.URL.Path, req.URL.RawQuery, req.Proto
+		recvMethod, recvURI := req.Method, req.RequestURI
 		remoteIP, _, _ := net.SplitHostPort(req.RemoteAddr)
 		rec := &nopLogger{}
 		p := &proxy.HTTPProxy{
@@ -1293,13 +1300,15 @@ func serveEvents(run *vh.Run, r *rand.Rand) {
 			run.Exclude("ServeHTTP did not log (request rejected before proxying)")
 			continue
 		}
-		inreq := fmt.Sprintf("{| ir_host := %s; ir_path := %s; ir_query := %s; ir_xfp := %s; ir_fwd := %s; ir_ws := %s; ir_tls := %s; ir_remote_ip := %s; ir_proto := %s |}",
-			vh.HxS(recvHost), vh.HxS(recvPath), vh.HxS(recvQuery), vh.HxS(xfp), vh.HxS(fwd), vh.Bool(ws), vh.Bool(useTLS), vh.HxS(remoteIP), vh.HxS(recvProto))
+		inreq := fmt.Sprintf("{| ir_host := %s; ir_path := %s; ir_query := %s; ir_xfp := %s; ir_fwd := %s; ir_ws := %s; ir_tls := %s; ir_remote_ip := %s; ir_proto := %s; ir_method := %s; ir_uri := %s |}",
+			vh.HxS(recvHost), vh.HxS(recvPath), vh.HxS(recvQuery), vh.HxS(xfp), vh.HxS(fwd), vh.Bool(ws), vh.Bool(useTLS), vh.HxS(remoteIP), vh.HxS(recvProto), vh.HxS(recvMethod), vh.HxS(recvURI))
 		ropt := fmt.Sprintf("{| ro_scheme := %s; ro_host := %s; ro_query := %s; ro_hostopt := %s; ro_strip := %s; ro_prepend := %s; ro_service := %s |}",
 			vh.HxS(tu.Scheme), vh.HxS(tu.Host), vh.HxS(tu.RawQuery), vh.HxS(hostOpt), vh.HxS(strip), vh.HxS(prepend), vh.HxS(svc))
 		obs := fmt.Sprintf("{| sv_request_url := %s; sv_request_host := %s; sv_upstream_addr := %s; sv_upstream_service := %s; sv_upstream_url := %s |}",
 			coqParts(ev.RequestURL), vh.HxS(ev.Request.Host), vh.HxS(ev.UpstreamAddr), vh.HxS(ev.UpstreamService), coqParts(ev.UpstreamURL))
-		run.Add("servehttp-event-fields", vh.App("CServe", inreq, ropt, obs), map[string]interface{}{"fn": "HTTPProxy.ServeHTTP -> Event", "uri": uri, "tls": useTLS, "websocket": ws,
+		// the request-side fields as the real logger renders them from this Event
+		line, _, lineHuman := implLog(requestFormat, ev)
+		run.Add("servehttp-event-fields", vh.App("CServe", inreq, ropt, obs, vh.HxS(ev.RequestURL.String()), line), map[string]interface{}{"rendered": lineHuman,"fn": "HTTPProxy.ServeHTTP -> Event", "uri": uri, "tls": useTLS, "websocket": ws,
 			"x_forwarded_proto": xfp, "forwarded": fwd, "route_host_option": hostOpt, "strip": strip, "prepend": prepend, "target": target,
 			"event_request_url": ev.RequestURL.String(), "event_request_host": ev.Request.Host, "event_upstream_url": ev.UpstreamURL.String()})
 	}
